@@ -480,10 +480,11 @@ def targeted_cases(rng, n):
     # (4) search() in salvage mode over a header whose cabinet-size field lies beyond the file (and whose files offset is tiny)
     for i in range(max(2, n // 2)):
         c = gen.cab_single(rng, nfolders=1, methods=[rng.choice([("none",), ("mszip",)])]); b = bytearray(c.files["in0.cab"])
-        struct.pack_into("<I", b, 8, rng.choice([0x7FFFFFFF, len(b) + 1, len(b) + 70000, 0xFFFFFFFF]))
-        if rng.random() < 0.7: struct.pack_into("<I", b, 16, rng.choice([0, 0, 1, 4, 36]))
+        # the first of these is always: salvage on, size field far beyond the file, files offset 0
+        struct.pack_into("<I", b, 8, 0x7FFFFFFF if i == 0 else rng.choice([0x7FFFFFFF, len(b) + 1, len(b) + 70000, 0xFFFFFFFF]))
+        if i == 0 or rng.random() < 0.7: struct.pack_into("<I", b, 16, 0 if i == 0 else rng.choice([0, 0, 1, 4, 36]))
         junk = bytes(rng.randrange(256) for _ in range(rng.choice([0, 3, 700])))
-        sc = scenario.Scn().file("in0.cab", junk + bytes(b) + junk[:5]).op("cab_new").op("cab_param", 3, rng.choice([1, 1, 0])).op("cab_search", "c0", "in0.cab")
+        sc = scenario.Scn().file("in0.cab", junk + bytes(b) + junk[:5]).op("cab_new").op("cab_param", 3, 1 if i == 0 else rng.choice([1, 1, 0])).op("cab_search", "c0", "in0.cab")
         sc.op("cab_extract_all", "c0", "out", 4).op("cab_close", "c0")
         out.append(Case("hostile:cab-search-size", "cab", sc))
     # (5) MSZIP (and the other methods) with the repair / salvage parameters on, several blocks: every read fails in turn
